@@ -63,13 +63,26 @@ var goTypes = map[string]func() tarsStruct{
 	"notifyf::ReportInfo":        func() tarsStruct { return new(notifyf.ReportInfo) },
 }
 
+// extraTypes: structs generated at check time (entries_arrays.go, build tag c05gen).
+var extraTypes = map[string]func() tarsStruct{}
+
 func structNames() []string {
 	var out []string
 	for n := range goTypes {
 		out = append(out, n)
 	}
+	for n := range extraTypes {
+		out = append(out, n)
+	}
 	sort.Strings(out)
 	return out
+}
+
+func structMaker(n string) func() tarsStruct {
+	if mk := goTypes[n]; mk != nil {
+		return mk
+	}
+	return extraTypes[n]
 }
 
 const (
@@ -169,9 +182,9 @@ func tarsCtx() context.Context {
 func buildEntries(live bool) []*entry {
 	var es []*entry
 	repStructs := map[string]bool{"requestf::RequestPacket": true, "requestf::ResponsePacket": true, "endpointf::EndpointF": true,
-		"propertyf::StatPropMsgBody": true, "authf::TokenRequest": true}
+		"propertyf::StatPropMsgBody": true, "authf::TokenRequest": true, "c05arrays::Arrays": true}
 	for _, n := range structNames() {
-		mk := goTypes[n]
+		mk := structMaker(n)
 		es = append(es, &entry{name: "ReadFrom(" + n + ")", class: "decode", rep: repStructs[n], run: func(b []byte) error {
 			return mk().ReadFrom(codec.NewReader(b))
 		}})
